@@ -441,3 +441,42 @@ def r6(rr, repo):
     only_case = all('isupper()' in U(n.test) or 'islower()' in U(n.test) for n in tests_key)      # the only conditional re-spelling concerns letter case: keywords, digits, clashes pass
     judge("what is still not a usable field name (empty, leading digit, a keyword, a name the facet defines itself) is re-spelled with an identifier prefix, as the last step before the key is stored", fb_ok, not fall and only_case,
           fall[0] if fall else loop[0], (U(fall[0].test)[:140] if fall else 'no isidentifier()/iskeyword() fallback') + f'; facet-defined names: {own}', 'normalise-fallback')
+
+
+@rule('C18.R7', "a terminal event (and START) cannot be lost to what the heartbeat happens to carry: _emit_event takes the heartbeat facets (self.facets - metric data swapped in by the exporter, whatever it holds) only "
+                "for RUNNING events; START, COMPLETE and ABORT are built from the facets they are given (none for the terminal events). And no VALUE can make the facet unbuildable: every field of the facet "
+                "dataclass gets its value through default_factory (a plain default is refused for unhashable values)")
+def r7(rr, repo):
+    lm, em = repo.find(f'{LIN}::OpenFilterLineage._emit_event')
+    def is_running_test(t, positive=True):
+        if isinstance(t, ast.Compare) and len(t.ops) == 1 and isinstance(t.ops[0], (ast.Eq, ast.Is) if positive else (ast.NotEq, ast.IsNot)):
+            sides = {U(t.left), U(t.comparators[0])}
+            return 'event_type' in sides and any(x.endswith('RunState.RUNNING') or x == 'RUNNING' for x in sides)
+        return False
+    uses = [x for x in ast.walk(em) if isinstance(x, ast.Attribute) and U(x) == 'self.facets' and isinstance(x.ctx, ast.Load)]
+    rr.floor('reads of the heartbeat facets in _emit_event', len(uses), 1, lm, em)
+    from ..model import ancestors as _anc
+    for u in uses:
+        governed = False
+        child = u
+        for a in _anc(u):
+            if isinstance(a, ast.IfExp):
+                in_body = any(x is child for x in ast.walk(a.body)) if a.body is not child else True
+                in_body = a.body is child or any(x is u for x in ast.walk(a.body))
+                in_else = a.orelse is child or any(x is u for x in ast.walk(a.orelse))
+                if (in_body and is_running_test(a.test, True)) or (in_else and is_running_test(a.test, False)):
+                    governed = True
+            if a is em:
+                break
+            child = a
+        if not governed:
+            governed = any((pol and is_running_test(t, True)) or (not pol and is_running_test(t, False)) for t, pol in q.guards_of(u, stop=em))
+        rr.ob('the heartbeat facets (self.facets) are read only where the event being built is known to be a RUNNING event', governed, lm, u,
+              witness=U(q.enclosing_stmt(u))[:120], key='terminal-payload-not-heartbeat')
+    _, mk = repo.find(f'{LIN}::create_openfilter_facet_with_fields')
+    fcalls = [c for c in q.calls_in(mk) if U(c.func) == 'field']
+    dyn = [c for c in fcalls if any(isinstance(x, ast.Name) and x.id == 'v' for k in c.keywords for x in ast.walk(k.value))]
+    rr.floor('facet fields built from configuration / metric values', len(dyn), 1, lm, mk)
+    for c in dyn:
+        rr.ob('a facet field takes its value through default_factory (no value is refused as a mutable / unhashable default)', all(k.arg == 'default_factory' for k in c.keywords if any(isinstance(x, ast.Name) and x.id == 'v' for x in ast.walk(k.value))), lm, c,
+              witness=U(c)[:80], key='facet-field-factory')
